@@ -982,7 +982,9 @@ func floodsC13(thorough bool) []c13Case {
 						if bytes > 48<<20 {
 							continue // more than 48 MiB on the wire for one case: left out, stated in the rule
 						}
-						if lim == def && !thorough && ids*per > 2048 {
+						if lim == def && ids*per > 2048 {
+							// every buffered chunk pins a whole 64 KiB receive buffer: more than 2048 chunks would
+							// bring the executor near its 4 GiB address-space limit and make the outcome depend on the allocator
 							continue
 						}
 						pend := []bool{false}
@@ -1191,6 +1193,9 @@ func mainC13() {
 			if o.NotJudged {
 				w.NotJudged(1)
 			}
+			if c.Flood != nil && o.Pinned >= 64<<20 && o.DataBytes <= 4096 {
+				w.Outcome("observation: a flood of <= 2048 one-byte intermediate chunks keeps >= 64 MiB of receive buffers reachable (each buffered chunk pins its whole ReceiveBufSize buffer)")
+			}
 			if o.PolicyFrom != o.PolicyTo && !o.OpenOK && o.Delivered == 0 {
 				w.Outcome("observation: a rejected OPN frame changed the channel's configured security policy (not judged)")
 			}
@@ -1215,7 +1220,7 @@ func mainC13() {
 		"hang detection: a 25 s watchdog after the peer closed (normal cost: microseconds), or the positive observation that the dispatcher is parked behind rcvLocker with no open() running (an absorbing state)",
 		"memory bound judged (hook VerifChunkStats, uasc/export_verif_chunks.go): bytes buffered for one request id <= MaxMessageSize + one chunk; number of request ids with buffered chunks <= MaxChunkCount (server kind) / number of requests awaiting a response (client kind); with MaxMessageSize or MaxChunkCount = 0 (unlimited) retained chunks are reported as not_judged",
 		"hostile frames in the Sign/SignAndEncrypt contexts are not protected with the channel keys (forging valid protection is C09/C10 territory); they exercise everything up to and including verifyAndDecrypt",
-		"floods above 48 MiB on the wire per case are left out",
+		"floods above 48 MiB on the wire per case, and floods of more than 2048 chunks with 64 KiB buffers (pinned memory would approach the executor's 4 GiB limit), are left out",
 		"that readChunk copies the policy URI of an unverified OPN frame into the channel configuration is counted as an observation, not as a violation: the statement does not speak about configuration")
 	r.Finish()
 }
